@@ -55,7 +55,15 @@ type rcEnv struct {
 
 // newRC2 builds a RefCount whose resolver follows script(i) for call i (1-based).
 func newRC2(ctx context.Context, keep bool, script func(i int) int) *rcEnv {
+	return newRC2Opt(ctx, keep, script, false)
+}
+
+// newRC2Opt: with noErrTarget the RefCount is built without an error container (documented: may be nil).
+func newRC2Opt(ctx context.Context, keep bool, script func(i int) int, noErrTarget bool) *rcEnv {
 	e := &rcEnv{target: ccontainer.NewCContainer[int](0), targetErr: ccontainer.NewCContainer[*error](nil)}
+	if noErrTarget {
+		e.targetErr = nil
+	}
 	vsched.CtrSet(rcKeep, b2i(keep))
 	if ctx != nil {
 		vsched.CtrSet(rcCtxSet, 1)
@@ -134,6 +142,11 @@ func (e *rcEnv) releaseFn(i int) {
 func refCb(j int) func(bool, int, error) {
 	return func(resolved bool, val int, err error) {
 		vsched.Observe(oCb, int64(j), b2i(resolved), int64(val))
+		if resolved && vsched.Ctr(rcLastRes+j) == 2 && (int(vsched.Ctr(rcLastVal+j)) != val || (vsched.Ctr(rcLastErr+j) != 0) != (err != nil)) {
+			// a stored result is only ever replaced after it was dropped: the reference is told
+			// (false, ...) in between ("dropped and resolved afresh")
+			fail("C09.replaced-without-drop", "reference %d was told (true,%d,err=%v) directly after (true,%d,err=%v): the earlier result was overwritten without being dropped", j, val, err != nil, vsched.Ctr(rcLastVal+j), vsched.Ctr(rcLastErr+j) != 0)
+		}
 		vsched.CtrSet(rcLastRes+j, 1+b2i(resolved))
 		vsched.CtrSet(rcLastVal+j, int64(val))
 		vsched.CtrSet(rcLastErr+j, b2i(err != nil))
@@ -208,7 +221,13 @@ func (e *rcEnv) quiescentOracle(heldRefs []int) {
 		fail("C09.not-resolved", "resolver call %d neither running nor returned at quiescence", n)
 		return
 	}
-	v, perr := e.target.GetValue(), e.targetErr.GetValue()
+	v := e.target.GetValue()
+	var perr *error
+	if e.targetErr != nil {
+		perr = e.targetErr.GetValue()
+	} else if last == 2 {
+		perr = &errResolve // no error container: nothing to compare
+	}
 	if i := v - 100; i >= 1 && i <= 8 && vsched.Ctr(rcInv0+i) != 0 {
 		// (quiescent: the released() invocation has completed, also when it went through a goroutine)
 		fail("C09.invalidated-value-kept", "released() was called for value %d but at quiescence it is still the current value: it was not dropped and resolved afresh", v)
@@ -300,7 +319,7 @@ func init() {
 	})
 	eng.Register(&eng.Scenario{
 		Name: "refcount-rootcancel", Props: []string{"C09", "C08"}, MustFinish: true, ObsNames: stdObs,
-		Doc:   "RefCount whose root context is cancelled from outside (not through SetContext) while the resolver call is running {value, slow, late, error}: with a context and a held reference the result of that call must still be delivered",
+		Doc:   "RefCount whose root context is cancelled from outside (not through SetContext) while the resolver call is running {value, slow, late, error}: with a context and a held reference the result of that call must still be delivered; optionally the resolver then calls released() for it: it is dropped and released",
 		Quick: eng.Bounds{PB: 2}, Thorough: eng.Bounds{PB: 4},
 		Body: func() {
 			root, cancel := context.WithCancel(bg)
@@ -311,6 +330,21 @@ func init() {
 			T("X", func() { cancel() })
 			vsched.Settle()
 			e.quiescentOracle([]int{0})
+			// the resolver now invalidates whatever it delivered (its context was cancelled by the owner, not
+			// through SetContext: the value is still stored and held): it must be dropped and released
+			if n := int(vsched.Ctr(rcCalls)); vsched.Choose(2) == 1 && n >= 1 && vsched.Ctr(rcRet0+n) == 1 && e.target.GetValue() == valOf(n) {
+				if f, ok := vsched.GetCell(49 + n).(func()); ok {
+					vsched.CtrSet(rcInv0+n, 1)
+					f()
+					vsched.Settle()
+					if vsched.Ctr(rcRel0+n) != 1 {
+						fail("C08.not-released", "released() was called for the held value %d (after the root context had been cancelled from outside) but its release function ran %d times by the next quiescent state", valOf(n), vsched.Ctr(rcRel0+n))
+					}
+					if e.target.GetValue() == valOf(n) {
+						fail("C09.invalidated-value-kept", "released() was called for value %d but at quiescence it is still in the target container", valOf(n))
+					}
+				}
+			}
 			vsched.CtrAdd(rcHeld, -1)
 			vsched.CtrSet(rcRefHeld+0, 0)
 			ref.Release()
@@ -320,11 +354,11 @@ func init() {
 	})
 	eng.Register(&eng.Scenario{
 		Name: "refcount-held", Props: []string{"C09", "C08"}, MustFinish: true, ObsNames: stdObs,
-		Doc:   "RefCount: a reference stays held while a second user comes and goes, a context thread does {SetContext(c2) | ClearContext;SetContext(c2) | nothing} and the first value may be invalidated by released(); at quiescence the latest result must be in the containers and in every held reference's last callback",
+		Doc:   "RefCount (with or without an error container, choice): a reference stays held while a second user comes and goes, a context thread does {SetContext(c2) | ClearContext;SetContext(c2) | nothing} and the first value may be invalidated by released(); at quiescence the latest result must be in the containers and in every held reference's last callback",
 		Quick: eng.Bounds{PB: 3, Delay: true}, Thorough: eng.Bounds{PB: 4, Delay: true},
 		Body: func() {
 			keep := vsched.Choose(2) == 1
-			e := newRC2(bg, keep, firstThen([]int{mValue, mInvalidate, mError, mSlow, mErrorRel}[vsched.Choose(5)]))
+			e := newRC2Opt(bg, keep, firstThen([]int{mValue, mInvalidate, mError, mSlow, mErrorRel}[vsched.Choose(5)]), vsched.Choose(2) == 1)
 			ref := e.rc.AddRef(refCb(0))
 			vsched.CtrSet(rcRefHeld+0, 1)
 			vsched.CtrAdd(rcHeld, 1)
